@@ -23,11 +23,74 @@ EXPLANATION = (
     "request's context. Covers every handler behaviour (any return/yield/raise) because it "
     "quantifies over paths, not over handler values."
     " Fourth session: (exchange-framed) borrowed from C15: the final response is cut into exactly the fragments the peer reassembles and a request's data set is waited for."
+    ' Fifth round: `attempt` is evaluated in its class form or, written as a @contextmanager generator, by a rule over the generator (exactly one yield, inside a try whose handler catches BaseException or everything, sends the failure response once with error_status and does not re-raise); (categories-correct) borrowed from C28.'
 )
 
 
-def _is_send(c: ast.Call) -> bool:
+_SEND_HELPERS: dict = {}  # method name -> (index of the response argument, index of the context id argument)
+
+
+def _is_raw_send(c: ast.Call) -> bool:
     return (dotted(c.func) or "").endswith("dimse.send_msg")
+
+
+def _is_send(c: ast.Call) -> bool:
+    d = dotted(c.func) or ""
+    return d.endswith("dimse.send_msg") or (d.startswith("self.") and d[5:] in _SEND_HELPERS)
+
+
+def _send_args(c: ast.Call):
+    """(response expression, context id expression) of a send - through a summarised helper by position"""
+    d = dotted(c.func) or ""
+    if d.startswith("self.") and d[5:] in _SEND_HELPERS:
+        ri, ci = _SEND_HELPERS[d[5:]][:2]
+        attr = None
+        if isinstance(ci, tuple):
+            ci, attr = ci
+        cx = c.args[ci] if ci < len(c.args) else None
+        if cx is not None and attr is not None:
+            cx = ast.Attribute(value=cx, attr=attr, ctx=ast.Load())
+        return (c.args[ri] if ri < len(c.args) else None), cx
+    return (c.args[0] if c.args else None), (c.args[1] if len(c.args) > 1 else None)
+
+
+def send_helper_summary(fn: ast.FunctionDef):
+    """A method that is handed the response primitive and sends it: `None` when fn is not one; (ri, ci) when on
+    every normal path it sends exactly that parameter once, on the context id parameter, and never touches its
+    Status; a string (why it cannot be summarised) otherwise. A call of such a helper is a send of its argument."""
+    params = [a.arg for a in fn.args.args]
+    sends = [c for c in walk_no_nested(fn) if isinstance(c, ast.Call) and _is_raw_send(c)]
+    psends = [c for c in sends if c.args and isinstance(c.args[0], ast.Name) and c.args[0].id in params[1:]]
+    if not psends or not params or params[0] != "self":
+        return None
+    if len(sends) != 1:
+        return f"{len(sends)} sends"
+    c = sends[0]
+    cxe = strip_cast(c.args[1]) if len(c.args) > 1 else None
+    if isinstance(cxe, ast.Name) and cxe.id in params[1:]:
+        cxp, cattr = cxe.id, None
+    elif isinstance(cxe, ast.Attribute) and isinstance(cxe.value, ast.Name) and cxe.value.id in params[1:]:
+        cxp, cattr = cxe.value.id, cxe.attr  # `context.context_id` of a context it was handed
+    else:
+        return "the context id of the send is not (an attribute of) a parameter"
+    rname = c.args[0].id
+    sets_status = False
+    for a in walk_no_nested(fn):
+        if isinstance(a, (ast.Assign, ast.AugAssign)):
+            for t in (a.targets if isinstance(a, ast.Assign) else [a.target]):
+                if norm(t) in (rname, cxp):
+                    return f"assigns {norm(t)}"
+                if norm(t) == f"{rname}.Status":
+                    sets_status = True
+    cfg = CFG(fn, body=body_nodoc(fn), local_exc_only=True)
+    sn = cfg.nodes_containing(c)
+    if not sn:
+        return "send not in the control-flow graph"
+    ok, _ = cfg.must_pass(cfg.entry, lambda n: n is sn[0], {cfg.exit.id}, labels_excluded=("exc",))
+    if not ok or enclosing(c, (ast.For, ast.While)) is not None:
+        return "the send is conditional or in a loop"
+    ci = params.index(cxp) - 1
+    return params.index(rname) - 1, (ci if cattr is None else (ci, cattr)), sets_status
 
 
 def _is_delegate(c: ast.Call) -> bool:
@@ -70,6 +133,9 @@ def analyse(repo, rep, mod, fn, cat_of_const, names, ALL_CATS):
                     excused = True
                 if _is_send(c) or _is_delegate(c):
                     n_sends[0] += 1
+                    hd_ = dotted(c.func) or ""
+                    if hd_.startswith("self.") and _SEND_HELPERS.get(hd_[5:], (0, 0, False))[2]:
+                        cat = None  # the helper may replace the status before it sends: not provably Pending
                     if closed:
                         fails.append(("after-final", n, st, "a response is sent after the final response for this request"))
                     if cat == frozenset({"STATUS_PENDING"}) and _is_send(c):
@@ -217,8 +283,9 @@ def analyse(repo, rep, mod, fn, cat_of_const, names, ALL_CATS):
             rep.check(okr, "message-id", fq, r, "the response object is replaced by something other than validate_status(.., rsp)", mod=mod, node=r)
         cx_defs = {norm(s.targets[0]): norm(strip_cast(s.value)) for s in walk_no_nested(fn) if isinstance(s, ast.Assign) and isinstance(s.targets[0], ast.Name) and "context_id" in norm(s.value)}
         for s in sends:
-            a0 = norm(s.args[0]) if s.args else "?"
-            a1 = norm(strip_cast(s.args[1])) if len(s.args) > 1 else "?"
+            r_, c_ = _send_args(s)
+            a0 = norm(r_) if r_ is not None else "?"
+            a1 = norm(strip_cast(c_)) if c_ is not None else "?"
             src = cx_defs.get(a1, a1)
             # the request's own id: the SCP's context parameter, or (Association._c_store_scp, which has
             # no context parameter) the id the request primitive arrived with
@@ -272,10 +339,24 @@ def run(repo: Repo, rep: Report, tier: str) -> None:
     all_cats = frozenset(names[v[0]] for t in tabs.values() for v in t.values())
     rep.sample({"status categories occurring in the service status tables": sorted(all_cats)})
     n_fn = 0
+    _SEND_HELPERS.clear()
+    for mname in ("service_class", "service_class_n"):
+        m = repo.mod(mname)
+        for fn in [n for n in ast.walk(m.tree) if isinstance(n, ast.FunctionDef)]:
+            sm_ = send_helper_summary(fn)
+            if sm_ is None:
+                continue
+            if isinstance(sm_, str):
+                rep.defer(f"{mname}.{qualname(fn)} sends a response primitive it was handed, but not unconditionally once ({sm_}): the callers' response sequences are not decided")
+                continue
+            _SEND_HELPERS[fn.name] = sm_
+            rep.ok("no-final", f"{mname}.{qualname(fn)} :: response helper", f"sends parameter #{sm_[0]} exactly once on every normal path, on parameter #{sm_[1]}{' (may replace its Status first)' if sm_[2] else ''}: a call is a send of its argument")
     for mname in ("service_class", "service_class_n", "association"):
         m = repo.mod(mname)
         for fn in [n for n in ast.walk(m.tree) if isinstance(n, ast.FunctionDef)]:
             q = qualname(fn)
+            if fn.name in _SEND_HELPERS and mname != "association":
+                continue
             if q.startswith("attempt.") or q == "attempt":
                 continue  # the containment helper (class or @contextmanager function): decided by the attempt rule
             if mname == "association" and q != "Association._c_store_scp":
